@@ -41,6 +41,11 @@ PURE = {'isinstance', 'is_completed', 'is_paused', 'len', 'str', 'debug',
         'named_lock', 'load_task_execution', 'get_logical_task_state'}
 
 
+def prog_funcs(ctx):
+    return [(q, f) for q, f in ctx.prog.funcs.items()
+            if f.module.startswith('mistral.engine.')]
+
+
 def run(ctx):
     _run(ctx)
     from mstatic.rules import completion
@@ -53,6 +58,34 @@ def run(ctx):
                   'paused workflow or while tasks are pending; CANCELLED '
                   'before SUCCESS before ERROR (shared with C01.R17)', 'DT')
     completion.check_and_complete_table(ctx, r6)
+    r10 = ctx.rule('R10', 'the message stored as the result of a failed / '
+                   'cancelled workflow is limited in the unit the limit is '
+                   'configured in', 'AGREE (units)')
+    n_c = 0
+    for q, f in sorted(prog_funcs(ctx)):
+        for c in own_nodes(f.node):
+            if isinstance(c, ast.Call) and U.call_name(c) in (
+                    'cut_by_kb', 'cut_by_char') and len(c.args) == 2:
+                n_c += 1
+                # a value in KB is a `*_kb` option itself; anything
+                # computed from it (get_number_of_chars_from_kilobytes,
+                # differences of lengths) is a number of characters
+                kb = (dotted(U.canon_expr(f.node, c.args[1])) or
+                      '').endswith('_kb')
+                r10.check(kb == (U.call_name(c) == 'cut_by_kb'),
+                          ctx.construct(f, c, extra='limit and cut agree'),
+                          '%s is applied to %s: a limit configured in KB '
+                          'cuts the text by characters (or the reverse) - '
+                          'the message of a stopped workflow is truncated '
+                          'to a fraction of what is allowed'
+                          % (U.call_name(c), norm(c.args[1], 60)),
+                          ctx.loc(f, c))
+    if n_c < 3:
+        raise AnalysisError('C11.R10: cut_by_* call sites: %d' % n_c)
+    r9 = ctx.rule('R9', 'stop / cancel cascade over sub-workflows finds '
+                  'them for an administrator acting on another project\'s '
+                  'execution (shared with C10.R8)', 'dataflow')
+    _sh.admin_context_lists_all_projects(ctx, r9)
     r8 = ctx.rule('R8', 'the operations queued for after the transaction '
                   '(reports of cancelled sub-workflows to their parents '
                   'among them) are run one by one: a failing one does not '
